@@ -72,6 +72,32 @@ def pbSpecTag (nmodel : Nat) (calls : Array PCall) : String :=
   | some e => "err " ++ errStr e
   | none => "ok"
 
+/-- monitor on the state exposed right after `build()`: the basis is the constant column, so the
+weighted basis matrix is the weight vector (ones without weights) and its only singular value is
+`‖w‖`; the coefficients must be exactly zero when `‖w‖` is clearly at or below the threshold and
+must not be when it is clearly above and the data have a component along `w` -/
+def pbPostMonitor (width nmodel : Nat) (calls : Array PCall) (cz : String) : Option String :=
+  let st := PB.run Float.abs calls.toList
+  match PB.build (machEps width) nmodel st with
+  | .error _ => none
+  | .ok b =>
+    let w : Array Float := match b.w with
+      | some d => d.val
+      | none => Array.replicate b.rows 1.0
+    let sigma := (w.foldl (fun a v => a + v * v) 0.0).sqrt
+    if cz == "none" then
+      if w.all Float.isFinite && b.y.all Float.isFinite then some "no-coefficients-after-build" else none
+    else if sigma ≤ b.eps * (1.0 - 1e-5) then
+      if cz == "1" then none else some s!"coefficients-not-truncated:sigma={sigma}:eps={b.eps}"
+    else if sigma > b.eps * (1.0 + 1e-5) then
+      -- projection of every right-hand side on w
+      let proj := (List.range b.cols).map fun j =>
+        (List.range b.rows).foldl (fun a i => a + (w.getD i 0.0) * (w.getD i 0.0) * b.y.getD (i + j * b.rows) 0.0) 0.0
+      let ymax := b.y.foldl (fun a v => max a v.abs) 0.0
+      let clearlyNonZero := proj.any fun v => v.abs > 1e-3 * (ymax + 1e-300)
+      if clearlyNonZero && cz == "1" then some s!"coefficients-zero-although-sigma={sigma}>eps={b.eps}" else none
+    else none
+
 def handlePBuilder (c : Case) : String :=
   let width := attrNat c.header "width" 64
   let nmodel := attrNat c.header "nmodel"
@@ -83,7 +109,13 @@ def handlePBuilder (c : Case) : String :=
   let corr := if model == impl then "ok" else s!"FAIL(model=[{model}] impl=[{impl}])"
   let spec := pbSpecTag nmodel calls
   let implTag := if impl.startsWith "ok" then "ok" else impl
-  let mon := if spec == implTag then "ok" else s!"FAIL(spec=[{spec}] impl=[{implTag}])"
+  let post := match c.firstWith "post" with
+    | some l => pbPostMonitor width nmodel calls (attrStr l "cz")
+    | none => none
+  let mon := if spec != implTag then s!"FAIL(spec=[{spec}] impl=[{implTag}])"
+    else match post with
+      | some m => s!"FAIL({m})"
+      | none => "ok"
   let tag := (impl.splitOn " ").take 2 |> " ".intercalate |>.replace " " "_"
   s!"corr={corr} mon={mon} nontrivial={if calls.size ≥ 2 then 1 else 0} tag={tag}"
 
